@@ -139,6 +139,23 @@ def check(run):
     cx = Ctx(fx)
     if set(cx.arrays) != {'m_out_buffer', 'm_in_buffer', 'm_udp_buffer'}:
         run.broke('socks_connection buffers changed: %s' % cx.arrays)
+    run.clause('each datagram is relayed whole: a buffer handed whole to async_receive_from on the relay socket holds the largest UDP datagram (65507 bytes) - udp::socket cuts a datagram down to the receive buffer and the relay would forward the cut-down rest')
+    nrb = 0
+    for fn_ in fx.repo_functions():
+        if q.top_function(fx, fn_).cls != C:
+            continue
+        for c in fn_.calls():
+            if not (q.callee_name(c) or '').split('<')[0].endswith('async_receive_from'):
+                continue
+            for b in [x for x in walk(c['args'][0]) if x['k'] == 'call' and (q.callee_name(x) or '').split('<')[0].endswith('::buffer') and len(x.get('args', [])) == 1]:
+                arr = q.render(fn_, q.strip_casts(b['args'][0])).replace('this->', '')
+                nrb += 1
+                run.touch(fn_)
+                run.check(cx.arrays.get(arr, 0) >= 65507, 'R11', 'relay-buffer-holds-a-datagram', '%s: async_receive_from(buffer(%s))' % (q.top_function(fx, fn_).norm.split('::')[-1], arr), fn_.loc(c),
+                          'the relay receives into %s[%s]: a datagram larger than that is silently cut down by udp::socket::receive_from_impl and forwarded truncated (a 2000-byte payload reaches the target as 1490 bytes) - not "each datagram with the header stripped"' % (arr, cx.arrays.get(arr, '?')),
+                          '%s holds %d bytes' % (arr, cx.arrays.get(arr, 0)))
+    if nrb < 3:
+        run.broke('fewer than 3 whole-buffer receives on the relay socket found (%d)' % nrb)
     # two passes: first establish byte-count bounds of the handlers, then analyse with them
     cx.bounds()
     cx.ai = {}
